@@ -5,6 +5,7 @@ package cl_test
 import (
 	"testing"
 
+	"github.com/ohler55/slip"
 	"github.com/ohler55/slip/sliptest"
 )
 
@@ -220,4 +221,20 @@ func TestFindBadKeyword(t *testing.T) {
 		Source: "(find 'b '(a b c) :count 3)",
 		Panics: true,
 	}).Test(t)
+}
+
+func TestFindStartAfterEnd(t *testing.T) {
+	// :end smaller than :start is an error of the caller, not a slice fault.
+	for _, src := range []string{
+		"(find 'b '(a b c) :start 2 :end 0)",
+		"(find #\\b \"abc\" :start 2 :end 0)",
+		"(position 'b #(a b c) :start 2 :end 0)",
+		"(position-if 'evenp '(1 2 3) :start 2 :end 1)",
+		"(find-if 'evenp '(1 2 3) :start 2 :end 1)",
+	} {
+		(&sliptest.Function{
+			Source:    src,
+			PanicType: slip.ErrorSymbol,
+		}).Test(t)
+	}
 }
